@@ -606,6 +606,24 @@ def case_rates(m, spec, eq, rec):
             rec('rates.transit_rate', 'discharged')
 
 
+def case_covariate_tv(m, spec, eq, rec):
+    """a categorical covariate that varies WITHIN individuals: a few individuals move to a category that no individual
+    has on its first record; that category is present in the data and must get its documented effect like any other"""
+    param, cov, effect, op = spec
+    df = m.dataset.copy()
+    idcol = m.datainfo.id_column.name
+    newcat = float(df[cov].max()) + 1
+    ids = list(df[idcol].unique())[:6]
+    for i in ids:
+        rows = df.index[df[idcol] == i]
+        if len(rows) > 1:
+            df.loc[rows[len(rows) // 2:], cov] = newcat
+    m = m.replace(dataset=df)
+    if newcat not in set(m.dataset[cov].unique()):
+        raise ValueError('could not create a within-individual category')
+    case_covariate(m, (param, cov, effect, op), eq, rec)
+
+
 def case_covariate_sibling(m, spec, eq, rec, start=None):
     """Two control streams that share one data file (same datainfo.path) but not the same records - the second has an
     additional IGNORE filter on the covariate - get the covariate effect one after the other in one process: each
@@ -639,7 +657,7 @@ def case_covariate_sibling(m, spec, eq, rec, start=None):
         case_covariate(second, (param, cov, effect, op), eq, rec)
 
 
-KINDS = dict(covariate=case_covariate, covariate_sibling=case_covariate_sibling,
+KINDS = dict(covariate=case_covariate, covariate_sibling=case_covariate_sibling, covariate_tv=case_covariate_tv,
              eta_transform_formula=case_eta_transform_formula, iiv=case_iiv, eta_transform=case_eta_transform, allometry=case_allometry,
              error=case_error, rates=case_rates, iiv_existing=case_iiv_existing,
              iov=case_iov, iov_partial=case_iov_partial, ruv_iiv=case_ruv_iiv, time_varying=case_time_varying, blq=case_blq,
@@ -692,6 +710,7 @@ def all_cases(thorough):
             for c in cat:
                 for eff in ('cat', 'cat2'):
                     cases.append((start, 'covariate', (p, c, eff, '*')))
+                    cases.append((start, 'covariate_tv', (p, c, eff, '*')))
         for c in cont[:1]:
             for eff in ('lin', 'exp', 'pow', 'piece_lin') if thorough else ('exp', 'pow'):
                 for order in ('full_first', 'subset_first'):
